@@ -660,7 +660,10 @@ class PortCollection (object):
     if self._chain:
       p = self._chain[index]
       if p.port_no not in self._masks:
-        return p
+        # Don't resurrect the parent's version of a port we've overridden
+        # (e.g., when looking it up by a name it no longer has).
+        if not any(q.port_no == p.port_no for q in self._ports):
+          return p
 
     raise IndexError("No key %s" % (index,))
 
